@@ -77,6 +77,9 @@ func init() {
 			{Name: "agent takes the key after the last occurrence of the prefix", ExpectRule: "C20.R4", Edits: []Edit{
 				{File: agt, Old: "\t\t\t\tkey := strings.TrimPrefix(destAddr, protocol.ForwardStreamPrefix)\n", New: "\t\t\t\tkey := destAddr[strings.LastIndex(destAddr, protocol.ForwardStreamPrefix)+len(protocol.ForwardStreamPrefix):]\n"},
 			}},
+			{Name: "agent answers through WriteStreamOpenErr with the wrong code", ExpectRule: "C20.R2", ExpectKey: "no forward handler", Edits: []Edit{
+				{File: agt, Old: "\t\t\t\tif a.forwardHandler != nil {\n\t\t\t\t\tctx := context.Background()\n\t\t\t\t\ta.forwardHandler.HandleStreamOpen(ctx, frame.StreamID, open.RequestID, peerID, key, open.EphemeralPubKey)\n\t\t\t\t} else {\n\t\t\t\t\t// No forward handler - send error\n\t\t\t\t\terrPayload := &protocol.StreamOpenErr{\n\t\t\t\t\t\tRequestID: open.RequestID,\n\t\t\t\t\t\tErrorCode: protocol.ErrForwardNotFound,\n\t\t\t\t\t\tMessage:   \"forward key not configured\",\n\t\t\t\t\t}\n\t\t\t\t\terrFrame := &protocol.Frame{\n\t\t\t\t\t\tType:     protocol.FrameStreamOpenErr,\n\t\t\t\t\t\tStreamID: frame.StreamID,\n\t\t\t\t\t\tPayload:  errPayload.Encode(),\n\t\t\t\t\t}\n\t\t\t\t\ta.peerMgr.SendToPeer(peerID, errFrame)\n\t\t\t\t}\n\t\t\t\treturn\n", New: "\t\t\t\tif a.forwardHandler == nil {\n\t\t\t\t\ta.WriteStreamOpenErr(peerID, frame.StreamID, open.RequestID, protocol.ErrGeneralFailure, \"forward key not configured\")\n\t\t\t\t\treturn\n\t\t\t\t}\n\t\t\t\ta.forwardHandler.HandleStreamOpen(context.Background(), frame.StreamID, open.RequestID, peerID, key, open.EphemeralPubKey)\n\t\t\t\treturn\n"},
+			}},
 			// rewrites
 			{Name: "rewrite: positive ok test", Edits: []Edit{
 				{File: fwh, Old: "\ttarget, ok := h.targets[key]\n\tif !ok {\n\t\th.sendOpenErr(remoteID, streamID, requestID, protocol.ErrForwardNotFound, \"forward key not found\")\n\t\treturn fmt.Errorf(\"forward key not found: %s\", key)\n\t}\n\n\t// Perform the rest asynchronously to avoid blocking the frame processing loop.\n\tgo h.handleStreamOpenAsync(ctx, streamID, requestID, remoteID, key, target, remoteEphemeralPub)\n\n\treturn nil\n", New: "\tif target, ok := h.targets[key]; ok {\n\t\tgo h.handleStreamOpenAsync(ctx, streamID, requestID, remoteID, key, target, remoteEphemeralPub)\n\t\treturn nil\n\t}\n\th.sendOpenErr(remoteID, streamID, requestID, protocol.ErrForwardNotFound, \"forward key not found\")\n\treturn fmt.Errorf(\"forward key not found: %s\", key)\n"},
@@ -92,6 +95,9 @@ func init() {
 			}},
 			{Name: "rewrite: lookup through the exported GetTarget", Edits: []Edit{
 				{File: fwh, Old: "\ttarget, ok := h.targets[key]\n\tif !ok {", New: "\ttarget, ok := h.GetTarget(key)\n\tif !ok {"},
+			}},
+			{Name: "rewrite: agent answers through WriteStreamOpenErr, nil test first", Edits: []Edit{
+				{File: agt, Old: "\t\t\t\tif a.forwardHandler != nil {\n\t\t\t\t\tctx := context.Background()\n\t\t\t\t\ta.forwardHandler.HandleStreamOpen(ctx, frame.StreamID, open.RequestID, peerID, key, open.EphemeralPubKey)\n\t\t\t\t} else {\n\t\t\t\t\t// No forward handler - send error\n\t\t\t\t\terrPayload := &protocol.StreamOpenErr{\n\t\t\t\t\t\tRequestID: open.RequestID,\n\t\t\t\t\t\tErrorCode: protocol.ErrForwardNotFound,\n\t\t\t\t\t\tMessage:   \"forward key not configured\",\n\t\t\t\t\t}\n\t\t\t\t\terrFrame := &protocol.Frame{\n\t\t\t\t\t\tType:     protocol.FrameStreamOpenErr,\n\t\t\t\t\t\tStreamID: frame.StreamID,\n\t\t\t\t\t\tPayload:  errPayload.Encode(),\n\t\t\t\t\t}\n\t\t\t\t\ta.peerMgr.SendToPeer(peerID, errFrame)\n\t\t\t\t}\n\t\t\t\treturn\n", New: "\t\t\t\tif a.forwardHandler == nil {\n\t\t\t\t\ta.WriteStreamOpenErr(peerID, frame.StreamID, open.RequestID, protocol.ErrForwardNotFound, \"forward key not configured\")\n\t\t\t\t\treturn\n\t\t\t\t}\n\t\t\t\ta.forwardHandler.HandleStreamOpen(context.Background(), frame.StreamID, open.RequestID, peerID, key, open.EphemeralPubKey)\n\t\t\t\treturn\n"},
 			}},
 		},
 	})
@@ -665,6 +671,8 @@ func (cx *c20Ctx) ruleR2(lookups map[ssa.Instruction]*c20Lk) {
 	if !r.Require(errCodeFld != nil, "anchor-unresolved: protocol.StreamOpenErr.ErrorCode") {
 		return
 	}
+	senders := cx.agentOpenErrSenders(errCodeFld)
+	r.Count("r2_agent_open_error_senders", len(senders))
 	n := 0
 	for _, cs := range p.StaticCallers(open) {
 		g := cs.Parent()
@@ -721,12 +729,100 @@ func (cx *c20Ctx) ruleR2(lookups map[ssa.Instruction]*c20Lk) {
 				}
 			}
 		})
+		// ... or a call of an agent function that sends a StreamOpenErr carrying the code it is given
+		// (WriteStreamOpenErr and helpers like it), with the constant ErrForwardNotFound
+		for _, c := range kit.Calls(g) {
+			s := kit.CalleeOf(c).Static
+			if s == nil {
+				continue
+			}
+			idx, isSender := senders[s]
+			if !isSender || idx >= len(c.Common().Args) || !l.CanReachFromEntry(c, nil) {
+				continue
+			}
+			if k, isc := kit.ConstInt(c.Common().Args[idx]); isc && k == cx.notFound {
+				answered = true
+			}
+		}
 		r.Decide(okDead && answered, "C20.R2", fmt.Sprintf("%s no forward handler #%d", kit.FuncName(g), n), p.Pos(cs.Pos()),
 			"without a forward handler the request is answered with ErrForwardNotFound",
 			"when the agent has no forward handler a forward request is not answered with a StreamOpenErr carrying ErrForwardNotFound: an unknown key is not refused with the not-found error")
 	}
 	r.Count("r2_agent_dispatch_sites", n)
 	r.Require(n >= 1, "floor: no call of forward.Handler.HandleStreamOpen in internal/agent")
+}
+
+// agentOpenErrSenders finds the functions of package agent that put one of their uint16 parameters
+// into StreamOpenErr.ErrorCode of an error they send to a peer (directly, or by handing the parameter
+// to another such function). The map gives the parameter's index in the Common().Args layout.
+func (cx *c20Ctx) agentOpenErrSenders(errCodeFld *types.Var) map[*ssa.Function]int {
+	out := map[*ssa.Function]int{}
+	fns := cx.p.FuncsInPkg("internal/agent")
+	parIdx := func(f *ssa.Function, v ssa.Value) int {
+		os := kit.Origins(v)
+		if len(os) != 1 {
+			return -1
+		}
+		q, ok := os[0].(*ssa.Parameter)
+		if !ok || q.Parent() != f {
+			return -1
+		}
+		for i, fp := range f.Params {
+			if fp == q {
+				return i
+			}
+		}
+		return -1
+	}
+	for _, f := range fns {
+		kit.Instrs(f, func(in ssa.Instruction) {
+			st, ok := in.(*ssa.Store)
+			if !ok {
+				return
+			}
+			fa, ok := st.Addr.(*ssa.FieldAddr)
+			if !ok || kit.FieldOfAddr(fa) != errCodeFld {
+				return
+			}
+			idx := parIdx(f, st.Val)
+			if idx < 0 {
+				return
+			}
+			for _, c := range kit.Calls(f) {
+				if kit.CalleeOf(c).Name != "SendToPeer" {
+					continue
+				}
+				for v := range kit.FlowSet(kit.Arg(c, 1), nil) {
+					if v == fa.X {
+						out[f] = idx
+					}
+				}
+			}
+		})
+	}
+	for changed := true; changed; {
+		changed = false
+		for _, f := range fns {
+			if _, done := out[f]; done {
+				continue
+			}
+			for _, c := range kit.Calls(f) {
+				s := kit.CalleeOf(c).Static
+				if s == nil {
+					continue
+				}
+				si, ok := out[s]
+				if !ok || si >= len(c.Common().Args) {
+					continue
+				}
+				if idx := parIdx(f, c.Common().Args[si]); idx >= 0 {
+					out[f] = idx
+					changed = true
+				}
+			}
+		}
+	}
+	return out
 }
 
 // ---------- R3 ----------
